@@ -198,6 +198,11 @@ func Gen(prop, tier string, seed, run uint64) Plan {
 		p.ConvFail = useConv && r.IntN(3) == 0
 	}
 	p.Listener = prop == "C20"
+	if prop == "C20" {
+		// the race detector is the oracle; probes would add happens-before edges
+		p.NoOracle = true
+		p.Knobs.NumCPU = 4
+	}
 	id := 0
 	add := func(o Op) {
 		id++
